@@ -148,6 +148,11 @@ theorem grow_step (s s' : St) (e : Ev) (hs : step s e = some s') : Grow s s' := 
     split at hs
     · simp at hs; subst hs; exact Grow.refl s
     · simp at hs
+  | boff k b =>
+    simp only [step] at hs
+    split at hs
+    · simp at hs; subst hs; exact Grow.refl s
+    · simp at hs
   | probe j c =>
     simp only [step] at hs
     split at hs
